@@ -213,6 +213,12 @@ impl<T> HbDrain<'_, T> {
 
 /// `a` is an element-wise clone of `b` (same buckets, same control bytes)
 pub uninterp spec fn clone_of<T>(a: TV<T>, b: TV<T>) -> bool;
+/// `x` is what `Clone::clone` returned for `y`
+pub open spec fn is_clone<T: Clone>(y: T, x: T) -> bool { call_ensures(T::clone, (&y,), x) }
+/// every element of `a` is a clone of some element of `b` (C11: the copy holds nothing but clones of the source's elements)
+pub open spec fn elems_cloned<T: Clone>(a: Multiset<T>, b: Multiset<T>) -> bool {
+    forall|x: T| #[trigger] a.count(x) > 0 ==> exists|y: T| #[trigger] b.count(y) > 0 && is_clone(y, x)
+}
 /// a hasher is assumed to agree on a value and its clone (lawful Hash/Clone), so a cloned table is hashed like its source
 #[verifier::external_body]
 pub proof fn axiom_clone_hashed<T, H: Fn(&T) -> u64>(a: TV<T>, b: TV<T>, h: H)
@@ -424,6 +430,9 @@ impl<T: Clone> Clone for HbTable<T> {
         ensures r@.items.len() == self@.items.len(), r@.growth_left == self@.growth_left, r@.buckets == self@.buckets, tv_inv(r@),
             // control bytes are copied: every clone sits where its original sat
             r@.hashes == self@.hashes, r@.items.dom() == self@.items.dom(), clone_of(r@, self@),
+            // hashbrown clones bucket by bucket: the element in bucket i of the copy is the clone of the element in bucket i
+            forall|i: int| #[trigger] r@.items.contains_key(i) ==> is_clone(self@.items[i], r@.items[i]),
+            elems_cloned(r@.elems, self@.elems),
     { unimplemented!() }
 }
 impl<T: Clone> HbTable<T> {
@@ -433,6 +442,8 @@ impl<T: Clone> HbTable<T> {
         ensures final(self)@.items.len() == source@.items.len(), tv_inv(final(self)@),
             // either the control bytes are copied (the source's stored hashes) or every clone is re-inserted with `hasher`
             hashed_by(source@, hasher) ==> hashed_by(final(self)@, hasher),
+            // whichever path is taken, the destination ends up holding clones of the source's elements and nothing else
+            elems_cloned(final(self)@.elems, source@.elems),
     { unimplemented!() }
 }
 
